@@ -55,7 +55,7 @@ def seed_label(k, s):
 
 
 def item_key(item):
-    return hashlib.sha1(json.dumps(item, sort_keys=True, default=str).encode()).hexdigest()
+    return hashlib.sha1(json.dumps(item, sort_keys=False, default=str).encode()).hexdigest()
 
 
 def internal_regex(gen):
@@ -702,7 +702,7 @@ def judge(case, impl, reply):
         if impl.get("outcome") != "ok":
             return Verdict("drift", f"schedule sweep failed: {impl}", False, None, tags=("item:failed",))
         return judge_item(case, impl)
-    key = json.dumps(case, sort_keys=True, default=str)
+    key = json.dumps(case, sort_keys=False, default=str)
     tags = (f"model:{k}" + (":" + case["what"] if k == "render" else ""),)
     if impl.get("outcome") != "ok":
         return Verdict("drift", f"real code raised {impl.get('outcome')}: {impl.get('msg')} on {case}", True, key, tags=tags + ("impl-raised",))
